@@ -26,14 +26,18 @@ instantiated with `hist := encHistory s ++ prev`; C10's `histories_agree` (from 
 the match finders read holds `encHistory s ++ prev ++ mb` (C10 proves the dictionary part of this for ITS ring model,
 `dict_tail_in_ring`; `ring_view_w` proves it for w-stream's model from `RingOK`; the two ring models are not
 identified with each other in Lean);  (2) the entropy-coding writers of quality 4–9 (`BrotliStoreMetaBlock`): their
-round trip is C01MetaBlock(Full)'s `wmbi_*` theorems under the SAME command hypotheses `cmdOK` / `lockstep` that are
-delivered here for the decoder's history, so only the composition line is missing;  (3) quality 10/11 (Zopfli: the
+round trip is C01MetaBlockFull's `full_metablock_roundtrip` / `wmbi_full_roundtrip`, whose command hypotheses are
+`cmdOK`, `lockstep` (delivered here for the decoder's history), `faithful` (delivered: `C10_faithful_q29`) and
+`copy_len() ≥ 2` for copying commands (NOT delivered: a 1-byte static-dictionary match is reachable at extreme
+`literal_byte_score`), besides the block-split / histogram hypotheses `MBOK` / `Covers`; the composition line is not
+written;  (3) quality 10/11 (Zopfli: the
 model of C01zzzzy, no lockstep theorem yet);  (4) one `CreateBackwardReferences` call per meta-block;  (5) the real
 decoder's copy path on the dictionary tail is `dict_tail_readable` / `decoder_shrunk_ring_clobbers_dict` (C10), not
 repeated here.
 -/
 import BV.Props.C01Chain
 import BV.Props.C10
+import BV.Lemmas.ChainFinal
 
 namespace BV.Props.C10Chain
 open BV.Hasher BV.MatchFinder BV.Recoder BV.PrefixArith BV.MetaBlock BV.Cbr BV.Props.C01Chain
@@ -162,6 +166,38 @@ theorem C10_trivial_roundtrip_q29 (p0 : BV.Header.Params) (size : Nat) (dict : N
     lastInsertLen numLiterals res hpos' hmb hc hcl h ring start mask isLast w hRH h256 h1 hst hIP
   rw [decoder_window p0 size dict hq p hlg, ← hh]
   exact this
+
+/-- **`C10_faithful_q29`** — the additional command hypothesis of the quality ≥ 4 writer theorems (`faithful`: after
+every command the decoder's output is history ++ a prefix of the block) for the decoder that holds the dictionary, and
+the decoder's ring after the block = the distance cache the call returns -/
+theorem C10_faithful_q29 (p0 : BV.Header.Params) (size : Nat) (dict : Nat → Nat) (hsz : 0 < size)
+    (hq : 2 ≤ encQ p0) (rbits : Nat) (hR : (decoderFor p0 size dict).dEff ≤ 2 ^ rbits) :
+    ∃ s, setCustomDictionary p0 size dict size = some s ∧
+      ∀ {H : Type} (ops : HasherOps H) (p : Cbr.Params) (large : Bool) (wo : WordOracle) (data : ByteArray)
+        (k tail : Nat) (prev mb : Bytes) (lo : Nat) (_hlg : p.lgwin = encL p0)
+        (_hb : BlockOK p large data k tail (encHistory s ++ prev) mb lo) (_hops : OpsOK (SlotOK wo) ops p data k)
+        (numBytes position : Nat) (h0 : H) (cache : List Int) (lastInsertLen numLiterals : Nat) (res : Result H)
+        (_hpos : position = (decoderFor p0 size dict).dEff + prev.length + lastInsertLen)
+        (_hmb : mb.length = lastInsertLen + numBytes) (_hc : CacheI32 cache) (_hcl : 4 ≤ cache.length)
+        (_h : createBackwardReferences ops p numBytes position h0 cache lastInsertLen numLiterals = some res),
+        faithful wo 0 0 (decoderFor p0 size dict).mbd mb (decHistory (decoderFor p0 size dict) rbits ++ prev)
+          ⟨decHistory (decoderFor p0 size dict) rbits ++ prev, cache.take 4, 0⟩
+          (closeMetaBlock res.cmds res.lastInsertLen) ∧
+        decSteps wo 0 0 (decoderFor p0 size dict).mbd mb ⟨decHistory (decoderFor p0 size dict) rbits ++ prev, cache.take 4, 0⟩
+          (closeMetaBlock res.cmds res.lastInsertLen)
+          = some ⟨decHistory (decoderFor p0 size dict) rbits ++ prev ++ mb, res.cache.take 4, mb.length⟩ := by
+  obtain ⟨s, hs, hh⟩ := histories_agree p0 size dict hsz hq rbits hR
+  refine ⟨s, hs, ?_⟩
+  intro H ops p large wo data k tail prev mb lo hlg hb hops numBytes position h0 cache lastInsertLen numLiterals res
+    hpos hmb hc hcl h
+  have hpos' : position = (encHistory s ++ prev).length + lastInsertLen := by
+    rw [List.length_append, hh, decHistory_length]; exact hpos
+  have h1 := cbr_faithful ops p large wo data k tail (encHistory s ++ prev) mb lo hb hops numBytes position h0 cache
+    lastInsertLen numLiterals res hpos' hmb hc hcl h
+  have h2 := (cbr_final_state ops p large wo data k tail (encHistory s ++ prev) mb lo hb hops numBytes position h0 cache
+    lastInsertLen numLiterals res hpos' hmb hc hcl h).1
+  rw [decoder_window p0 size dict hq p hlg, ← hh]
+  exact ⟨h1, h2⟩
 
 /-! ### non-vacuity: an 8-byte custom dictionary (the first 8 bytes of `BV.Cbr.Example.text`) at quality 5, lgwin 10;
 the block is the remaining 24 bytes, searched at position 8 = `d'`.  Every hypothesis of `C10_roundtrip_q29_partial`
